@@ -7,7 +7,7 @@ ALL_BE = [0, 1, 2, 3, 4, 5]
 
 
 def oracle_units(chk, progs, backends, tag, proj=emit.KINDS_ALL, steps_fn=None, bfs_depth=6, max_confs=60,
-                 check_result=True, check_post=True, check_flags=False, probe=None, opts=None, timeout=45, unwind=6, conf_filter=None,
+                 check_result=True, check_post=True, check_flags=False, probe=None, check_introspect=False, opts=None, timeout=45, unwind=6, conf_filter=None,
                  bfs_steps_fn=None, extra_leaf=None, extra_pre=None, cbmc_extra=()):
     for pname in progs:
         my_backends = backends
@@ -28,7 +28,7 @@ def oracle_units(chk, progs, backends, tag, proj=emit.KINDS_ALL, steps_fn=None, 
             confs, edges = model.bfs(prog, bsteps, max_depth=bfs_depth, max_confs=max_confs)
             confs = [c for c in confs if (conf_filter(c[0]) if conf_filter else c[0].started)]
             cpp = emit.emit_cpp(prog, opts)
-            h, index = emit.emit_harness(prog, confs, steps, tag, proj=proj, check_result=check_result, check_post=check_post, check_flags=check_flags, probe=probe,
+            h, index = emit.emit_harness(prog, confs, steps, tag, proj=proj, check_result=check_result, check_post=check_post, check_flags=check_flags, probe=probe, check_introspect=check_introspect,
                                          extra_leaf=extra_leaf, extra_pre=extra_pre)
             chk.model_edges += sum(ix['paths'] for ix in index)
             for be in bes:
@@ -56,7 +56,7 @@ def C01(tier, seed):
 def C02(tier, seed):
     chk = Check('C02', tier, seed)
     be = [0, 2, 3] + ([1, 4, 5] if tier == 'thorough' else [])
-    oracle_units(chk, ['F1', 'H2', 'H3'], be, 'C02', proj=('G', 'A', 'E', 'X'), check_result=False)
+    oracle_units(chk, ['F1', 'H2', 'H3', ('X', [0, 3])], be, 'C02', proj=('G', 'A', 'E', 'X'), check_result=False)
     return chk
 
 
@@ -115,4 +115,52 @@ def C17(tier, seed):
     return chk
 
 
-PROPS = {f.__name__: f for f in (C01, C02, C06, C07, C08, C09, C10, C11, C17)}
+def ledger_invariant(prog, conf, paths):
+    """C03 on the reference itself: every state is entered and exited alternately starting with entry, a substate only
+    while its submachine is active; the active set after the step is exactly the set with one more entry than exits"""
+    def active_set(c):
+        if not c.started: return set()
+        a = set(m.self_idx for m in c.active_machines())
+        for m in c.active_machines():
+            for n in c.m[m.name]['active']: a.add(m.states[n].idx)
+        return a
+    parent = {}
+    for m in prog.machines:
+        for st in m.states.values(): parent[st.idx] = m.self_idx
+    for dec, log, res, post in paths:
+        act = active_set(conf)
+        for ent in log:
+            if ent[0] == 'E':
+                assert ent[1] not in act, ('entered twice', ent, dec)
+                assert ent[1] == prog.root.self_idx or parent[ent[1]] in act, ('substate entered while parent inactive', ent)
+                act.add(ent[1])
+            elif ent[0] == 'X':
+                assert ent[1] in act, ('exit of inactive state', ent, dec)
+                act.discard(ent[1])
+        assert act == active_set(post), ('ledger != configuration', act, active_set(post), dec)
+    return True
+
+
+def C03(tier, seed):
+    chk = Check('C03', tier, seed)
+    be = [0, 2, 3] + ([4] if tier == 'thorough' else [])
+    def steps_fn(prog): return [('ev', e) for e in prog.events] + [('stop',), ('start',)]
+    def bsteps(prog): return [('start',)] + [('ev', e) for e in prog.events] + [('stop',)]
+    progs = ['F1', 'R3', 'H2', 'H3'] + (['HIa', 'R2'] if tier == 'thorough' else [])
+    oracle_units(chk, progs, be, 'C03', proj=('E', 'X'), check_result=False, check_introspect=True, opts={'introspect': True},
+                 steps_fn=steps_fn, bfs_steps_fn=bsteps, conf_filter=lambda c: True, bfs_depth=6, max_confs=30)
+    # the ledger invariant is checked on every path of the reference for every enumerated configuration
+    n = 0
+    for pname in progs:
+        prog = catalog.CATALOG[pname]()
+        confs, _ = model.bfs(prog, bsteps(prog), max_depth=6, max_confs=30)
+        for conf, script in confs:
+            for st in steps_fn(prog):
+                if (st[0] == 'start') == conf.started: continue
+                paths = model.explore(prog, conf, lambda sem, st=st: model.run_step(sem, st))
+                ledger_invariant(prog, conf, paths); n += len(paths)
+    chk.extra_cov['reference_paths_checked_for_ledger_invariant'] = n
+    return chk
+
+
+PROPS = {f.__name__: f for f in (C01, C02, C03, C06, C07, C08, C09, C10, C11, C17)}
